@@ -1084,6 +1084,17 @@ func (c *specCtx) call(n *SCall) (Val, types.Type) {
 			c.fail("marshalLen needs an interface value")
 		}
 		return scalar(tb.App("marshallen", SInt, v.T[0], v.T[1])), untypedInt
+	case "bigOf":
+		// bigOf(b): the non-negative integer whose big-endian bytes are the byte slice b (what SetBytes(b) yields)
+		v, T := arg(0)
+		if sl, ok := T.Underlying().(*types.Slice); ok {
+			v = c.e.materialiseIfSlice(c.st, v, sl)
+		}
+		if len(v.T) != 4 {
+			c.fail("bigOf needs a byte slice")
+		}
+		row := tb.Select(c.H("E:uint8", SArr2I), v.T[0])
+		return scalar(tb.App("bytes2big", SInt, row, v.T[1], v.T[2])), untypedInt
 	case "tokByte":
 		// tokByte(v, j): byte j of the byte-slice token with value v (token model)
 		v, _ := arg(0)
